@@ -39,7 +39,7 @@ def tucan_of(T, g):
 
 
 # --------------------------------------------------------------------------- building graphs from abstract molecules
-def build(T, atoms, edges, perm=None, order=None, flips=None, edge_order=None, extra=False):
+def build(T, atoms, edges, perm=None, order=None, flips=None, edge_order=None, extra=False, post_relabel=None):
     """atoms: [{"sym", "mass"?, "rad"?, "chg"?}], edges: [[u, v]] over 0..n-1.
     perm: new label of atom i; order: listing order of atoms; flips: per edge orientation; edge_order: listing order of bonds.
     extra: attach non-identity data (coordinates derived from the ORIGINAL index, bond type, charge)."""
@@ -70,7 +70,11 @@ def build(T, atoms, edges, perm=None, order=None, flips=None, edge_order=None, e
         if flips and flips[k]:
             u, v = v, u
         bond_attrs[(perm[u], perm[v])] = {ga.BOND_TYPE: 1 + (k % 3)} if extra else {ga.BOND_TYPE: 1}
-    return T.graph_from_molecule(atom_attrs, bond_attrs)
+    g = T.graph_from_molecule(atom_attrs, bond_attrs)
+    if post_relabel:
+        # labels stay 0..n-1 but the node iteration order no longer equals the label order (what nx.relabel_nodes produces)
+        g = T.nx.relabel_nodes(g, {i: post_relabel[i] for i in range(n)}, copy=True)
+    return g
 
 
 def ident_key(T, d):
@@ -104,7 +108,7 @@ def iso(T, g, h):
 # --------------------------------------------------------------------------- predicates (return None or a description)
 def pred_c01(T, inp):
     g = build(T, inp["atoms"], inp["edges"])
-    h = build(T, inp["atoms"], inp["edges"], inp.get("perm"), inp.get("order"), inp.get("flips"), inp.get("edge_order"))
+    h = build(T, inp["atoms"], inp["edges"], inp.get("perm"), inp.get("order"), inp.get("flips"), inp.get("edge_order"), post_relabel=inp.get("post_relabel"))
     s, t = tucan_of(T, g), tucan_of(T, h)
     if s != t:
         return f"tucan differs under relabeling/reordering: {s!r} vs {t!r}"
@@ -113,7 +117,7 @@ def pred_c01(T, inp):
 def pred_c04(T, inp):
     ga = T.ga
     g = build(T, inp["atoms"], inp["edges"], extra=True)
-    h = build(T, inp["atoms"], inp["edges"], inp.get("perm"), inp.get("order"), inp.get("flips"), inp.get("edge_order"), extra=True)
+    h = build(T, inp["atoms"], inp["edges"], inp.get("perm"), inp.get("order"), inp.get("flips"), inp.get("edge_order"), extra=True, post_relabel=inp.get("post_relabel"))
     c, d = T.canonicalize(g), T.canonicalize(h)
     key = lambda x: (x[ga.ELEMENT_SYMBOL], x.get(ga.MASS), x.get(ga.RAD), x[ga.PARTITION])
     if sorted(c.nodes) != list(range(len(inp["atoms"]))) or sorted(d.nodes) != sorted(c.nodes):
@@ -128,7 +132,7 @@ def pred_c13(T, inp):
     ga = T.ga
     n = len(inp["atoms"])
     g = build(T, inp["atoms"], inp["edges"], extra=True)
-    h = build(T, inp["atoms"], inp["edges"], inp.get("perm"), inp.get("order"), inp.get("flips"), inp.get("edge_order"), extra=True)
+    h = build(T, inp["atoms"], inp["edges"], inp.get("perm"), inp.get("order"), inp.get("flips"), inp.get("edge_order"), extra=True, post_relabel=inp.get("post_relabel"))
     c, d = T.canonicalize(g), T.canonicalize(h)
     orig = lambda x: int(x[ga.X_COORD] - 0.5)
     cls1 = {orig(c.nodes[a]): c.nodes[a][ga.PARTITION] for a in c}
@@ -157,7 +161,7 @@ def pred_c13(T, inp):
 def pred_c12(T, inp):
     ga = T.ga
     import copy
-    g = build(T, inp["atoms"], inp["edges"], inp.get("perm"), inp.get("order"), inp.get("flips"), inp.get("edge_order"), extra=True)
+    g = build(T, inp["atoms"], inp["edges"], inp.get("perm"), inp.get("order"), inp.get("flips"), inp.get("edge_order"), extra=True, post_relabel=inp.get("post_relabel"))
     snap = (list(g.nodes(data=True)), list(g.edges(data=True)), {u: list(nb) for u, nb in g.adj.items()})
     snap = copy.deepcopy(snap)
     c = T.canonicalize(g)
@@ -199,7 +203,7 @@ def pred_c12(T, inp):
 
 
 def pred_c03(T, inp):
-    g = build(T, inp["atoms"], inp["edges"], inp.get("perm"), inp.get("order"), inp.get("flips"), inp.get("edge_order"))
+    g = build(T, inp["atoms"], inp["edges"], inp.get("perm"), inp.get("order"), inp.get("flips"), inp.get("edge_order"), post_relabel=inp.get("post_relabel"))
     s = tucan_of(T, g)
     try:
         h = T.parse(s)
@@ -338,7 +342,7 @@ def layout_check(T, g, s):
 
 
 def pred_c05(T, inp):
-    g = build(T, inp["atoms"], inp["edges"], inp.get("perm"), inp.get("order"), inp.get("flips"), inp.get("edge_order"))
+    g = build(T, inp["atoms"], inp["edges"], inp.get("perm"), inp.get("order"), inp.get("flips"), inp.get("edge_order"), post_relabel=inp.get("post_relabel"))
     s = tucan_of(T, g)
     return layout_check(T, g, s)
 
@@ -648,7 +652,10 @@ def relabelings(rnd, n, edges, k_all=4, k_random=6):
         rnd.shuffle(order)
         eo = list(range(len(edges)))
         rnd.shuffle(eo)
-        yield {"perm": list(p), "order": order, "flips": [rnd.random() < .5 for _ in edges], "edge_order": eo}
+        var = {"perm": list(p), "order": order, "flips": [rnd.random() < .5 for _ in edges], "edge_order": eo}
+        if rnd.random() < .5:
+            var["post_relabel"] = rnd.sample(range(n), n)
+        yield var
 
 
 SYMMETRIC = {
@@ -669,6 +676,16 @@ def molecules(rnd, tier, max_n_quick=4, max_n_thorough=5, per_graph=1):
     out = []
     for atoms, edges in molgen.labelled_molecules(rnd, max_n, elements=("C", "O", "H"), per_graph=per_graph if tier == "quick" else 2):
         out.append((atoms, [list(e) for e in edges]))
+    for n in (range(5, 11) if tier == "quick" else range(5, 16)):
+        # unbranched chains / rings with distinguishable ends or one labelled atom (deep refinement, discrete partitions)
+        chain = [[i, i + 1] for i in range(n - 1)]
+        for ends in (("O", "Cl"), ("O", "O"), ("C", "N")):
+            atoms = [{"sym": "C"} for _ in range(n)]
+            atoms[0], atoms[-1] = {"sym": ends[0]}, {"sym": ends[1]}
+            out.append((atoms, chain))
+        atoms = [{"sym": "C"} for _ in range(n)]
+        atoms[rnd.randrange(n)] = {"sym": "C", "mass": 13}
+        out.append((atoms, chain + [[n - 1, 0]]))
     for name, (n, edges) in SYMMETRIC.items():
         for variant in range(2 if tier == "quick" else 4):
             atoms = [{"sym": "C"} for _ in range(n)]
